@@ -109,10 +109,13 @@ def replay(ctx, path):
     rp = json.load(open(path))
     hf, of = ctx.path("h.json"), ctx.path("t.json")
     json.dump([{"h": rp["history"]}], open(hf, "w"))
-    common.run_py(RUN, ["run", hf, of, ctx.seed, "tcp", ctx.dir])
-    r = common.tlc("MC_HeadersTrace", "MC_HeadersTrace.cfg", env={"TRACE_FILE": of}, workers=1)
-    for m in re.finditer(r'<<"PROPFAIL", (\d+), "(\w+)", (\d+)>>', r.out):
-        if rp["sig"].startswith(m.group(2) + ":"):
-            ctx.violation(rp["sig"], "replayed: %s fails" % m.group(2), rp)
+    seen = False
+    for cred in ("", "1"):                 # (the history is run without and with credentials in the URL)
+        common.run_py(RUN, ["run", hf, of, ctx.seed, "tcp", ctx.dir], env={"VERIF_FORCE_CRED": cred})
+        r = common.tlc("MC_HeadersTrace", "MC_HeadersTrace.cfg", env={"TRACE_FILE": of}, workers=1)
+        for m in re.finditer(r'<<"PROPFAIL", (\d+), "(\w+)", (\d+)>>', r.out):
+            if rp["sig"].startswith(m.group(2) + ":") and not seen:
+                seen = True
+                ctx.violation(rp["sig"], "replayed: %s fails" % m.group(2), rp)
     ctx.cov["states"] = max(1, r.distinct)
     ctx.cov["transitions"] = max(1, r.generated)
